@@ -9,7 +9,7 @@
 import StathamModel.Py.Eval
 import StathamModel.SerJson
 import StathamModel.Eq
-namespace Statham
+namespace Statham.PyEval
 
 /-- the values of a printed `dict` -/
 inductive Entry where
@@ -201,4 +201,4 @@ def evalBack (e : Elem) : Bool :=
   | some e' => elemEq e' e && elemEq e e'
   | none => false
 
-end Statham
+end Statham.PyEval
